@@ -471,8 +471,29 @@ def tiny_patch_mesh(draw, renumber=True):
     return mesh
 
 
+def with_orphan_nodes(draw, mesh, gap_max=9):
+    """The same faces inside a longer node list: node i moves to the running sum of drawn gaps (1..gap_max), the
+    nodes in between are used by no face (legal UGRID; e.g. a regional extract that keeps the full mesh's numbering)."""
+    n_old = len(mesh["nodes"])
+    gaps = draw(st.lists(st.integers(1, gap_max), min_size=n_old, max_size=n_old))
+    new_idx, acc = [], draw(st.integers(0, gap_max)) - 1
+    for gp in gaps:
+        acc += gp
+        new_idx.append(acc)
+    n_new = new_idx[-1] + 1 + draw(st.integers(0, 3))
+    nodes = [[0.0, -89.9 + 1e-4 * (k % 1000)] for k in range(n_new)]
+    for i, p_ in enumerate(mesh["nodes"]):
+        nodes[new_idx[i]] = p_
+    out = dict(mesh, nodes=nodes, faces=[[new_idx[i] for i in f] for f in mesh["faces"]])
+    out["family"] = mesh.get("family", "?") + "-orphan-nodes"
+    out.pop("centers", None)
+    return out
+
+
 @st.composite
-def any_mesh(draw, max_pts=24, partial=True, structured=True, voronoi=True, renumber=True, tiny=False):
+def any_mesh(draw, max_pts=24, partial=True, structured=True, voronoi=True, renumber=True, tiny=False, orphans=False):
+    if orphans and draw(st.integers(0, 7)) == 0:
+        return with_orphan_nodes(draw, draw(any_mesh(max_pts, partial, structured, voronoi, renumber, tiny, False)), draw(st.sampled_from([2, 9, 40])))
     if tiny and draw(st.integers(0, 6)) == 0:
         return draw(tiny_patch_mesh(renumber))
     opts = ["hull", "hull", "hull"]
